@@ -189,9 +189,17 @@ def run(ctx):
                 l, r = lin(a.a[0], subst), lin(a.a[1], subst)
                 if l is None or r is None:
                     continue
-                d = l - r if a.op in ('>=', '>') else r - l
+                d = l - r
                 if 'zck->chunk_auto_max' in (l.t.keys() | r.t.keys()):
-                    if d == Lin({'zck->comp.dc_data_size': 1, 'i': 1, 'zck->chunk_auto_max': -1}) and a.op in ('>=', '<='):
+                    # T = dc_data_size + <scan index> - chunk_auto_max; the same predicate in any spelling: T >= 0,
+                    # its negation T < 0, or with the operands swapped (the index is whatever local the loop uses)
+                    def is_T(x):
+                        rest = dict((k, v) for k, v in x.t.items()
+                                    if k not in ('zck->comp.dc_data_size', 'zck->chunk_auto_max'))
+                        return x.c == 0 and x.t.get('zck->comp.dc_data_size') == 1 and \
+                            x.t.get('zck->chunk_auto_max') == -1 and len(rest) == 1 and list(rest.values()) == [1] \
+                            and '->' not in list(rest)[0]
+                    if (is_T(d) and a.op in ('>=', '<')) or (is_T(-d) and a.op in ('<=', '>')):
                         canonical = True
                     else:
                         derived.append(show(a))
